@@ -607,8 +607,17 @@ func (fc *FnCtx) evalCall(env *specEnv, x *ast.CallExpr) Val {
 		}
 		return boolV(eq(a, b))
 	case "ite":
+		c := arg(0)
+		// a statically decided condition does not evaluate the other branch (it may mention
+		// locals that do not exist on this path)
+		if c.T == "true" {
+			return arg(1)
+		}
+		if c.T == "false" {
+			return arg(2)
+		}
 		a, b := arg(1), arg(2)
-		return Val{T: ite(arg(0).T, a.T, b.T), Sort: a.Sort, Ty: a.Ty}
+		return Val{T: ite(c.T, a.T, b.T), Sort: a.Sort, Ty: a.Ty}
 	case "all", "ex":
 		// all(i, lo, hi, body [, trig(...)])
 		id, ok := x.Args[0].(*ast.Ident)
@@ -639,6 +648,19 @@ func (fc *FnCtx) evalCall(env *specEnv, x *ast.CallExpr) Val {
 				break
 			}
 			so, ok1 := c.Fun.(*ast.Ident)
+			if ok1 && so.Name == "sort" && len(c.Args) == 2 {
+				lit, okl := c.Args[0].(*ast.BasicLit)
+				id, oki := c.Args[1].(*ast.Ident)
+				if !okl || !oki {
+					break
+				}
+				sortTxt, _ := strconv.Unquote(lit.Value)
+				sortTxt = fc.ghostSort(sortTxt)
+				bn, bv := fc.binder(env, id.Name, sortTxt)
+				n.vars[id.Name] = bv
+				decls = append(decls, fmt.Sprintf("(%s %s)", bn, sortTxt))
+				continue
+			}
 			if !ok1 || len(c.Args) != 1 {
 				break
 			}
@@ -729,6 +751,14 @@ func (fc *FnCtx) evalCall(env *specEnv, x *ast.CallExpr) Val {
 			return Val{T: t, Sort: sortInt, Ty: types.Typ[types.Int]}
 		}
 		return Val{T: a.T, Sort: sortInt, Ty: types.Typ[types.Int]}
+	case "cast":
+		// cast(P_pkg_Type, x): view an integer reference as a typed pointer
+		id, ok := x.Args[0].(*ast.Ident)
+		if !ok {
+			specFail("cast(Sort, x)")
+		}
+		ns := fc.sortByName(env, id.Name)
+		return Val{T: arg(1).T, Sort: ns.sort, Ty: ns.ty}
 	case "arrid":
 		return Val{T: slArr(arg(0).T), Sort: sortInt, Ty: types.Typ[types.Int]}
 	case "offof":
@@ -786,7 +816,7 @@ func isSortName(fc *FnCtx, n string) bool {
 	case "Int", "Bool", "Str", "Real", "Iface", "Slice", "Ref":
 		return true
 	}
-	return strings.HasPrefix(n, "T_")
+	return strings.HasPrefix(n, "T_") || strings.HasPrefix(n, "P_")
 }
 
 func (fc *FnCtx) sortByName(env *specEnv, n string) namedSort {
@@ -805,6 +835,15 @@ func (fc *FnCtx) sortByName(env *specEnv, n string) namedSort {
 		return namedSort{sortIface, nil}
 	case "Slice":
 		return namedSort{sortSlice, nil}
+	}
+	// P_pkg_Type: pointer to a Go named type
+	if strings.HasPrefix(n, "P_") {
+		parts := strings.SplitN(n[2:], "_", 2)
+		if len(parts) == 2 {
+			if t := fc.eng.lookupNamedType(env.pkg, parts[0], parts[1]); t != nil {
+				return namedSort{sortInt, types.NewPointer(t)}
+			}
+		}
 	}
 	// T_pkg_Type: a Go named type
 	if strings.HasPrefix(n, "T_") {
